@@ -194,8 +194,9 @@ def _dechunk(rest):
         rest = rest2[size + 2:]
 
 
-def parse_responses(data):
-    """Strict framing parse of a server->client byte stream.
+def parse_responses(data, head_only=()):
+    """Strict framing parse of a server->client byte stream.  `head_only`: indexes of responses that
+    answer HEAD requests (head only, whatever the headers announce; framing "head").
     -> (responses, leftover, problem).  Each response: dict(status=int, headers, framing, body) with
     framing in {"length", "chunked", "bodiless"}.  Parsing stops at the first response that is not
     self-delimiting (problem = "undelimited") or incomplete (problem = "incomplete")."""
@@ -210,7 +211,9 @@ def parse_responses(data):
         if len(parts) < 2 or not parts[0].startswith(b"HTTP/1.") or not parts[1].isdigit():
             return out, data, "garbage"
         status = int(parts[1])
-        if hdrs.get("transfer-encoding", "").lower() == "chunked":
+        if len(out) in head_only:
+            body, framing = b"", "head"
+        elif hdrs.get("transfer-encoding", "").lower() == "chunked":
             r = _dechunk(rest)
             if r is None:
                 return out, data, "incomplete"
